@@ -21,7 +21,7 @@ use serde_bytes::ByteBuf;
 #[kani::proof]
 #[kani::unwind(106)]
 fn c05_o1a_signed_peer_entry() {
-    let buf: [u8; 210] = kani::any();
+    let buf: [u8; 210] = kani::env();
     let len: usize = kani::any();
     kani::assume(len <= 210);
     let r = bytes_to_signed_peer(&buf[..len]);
@@ -62,7 +62,7 @@ fn c05_o1a_signed_peer_entry() {
 #[kani::proof]
 #[kani::unwind(22)]
 fn c05_o1b_sockaddr() {
-    let buf: [u8; 20] = kani::any();
+    let buf: [u8; 20] = kani::env();
     let len: usize = kani::any();
     kani::assume(len <= 20);
     let r = bytes_to_sockaddr(&buf[..len]);
@@ -95,7 +95,7 @@ fn c05_o1b_sockaddr() {
 #[kani::unwind(28)]
 fn c05_o1c_nodes4() {
     clock::set(0);
-    let buf: [u8; 52] = kani::any();
+    let buf: [u8; 52] = kani::env();
     let which: u8 = kani::any();
     let len = match which {
         0 => 0usize,
@@ -146,7 +146,7 @@ fn tid_vec(len: usize, b: [u8; 5]) -> Vec<u8> {
 #[kani::proof]
 #[kani::unwind(8)]
 fn c05_o1d_envelope_tid() {
-    let b: [u8; 5] = kani::any();
+    let b: [u8; 5] = kani::env();
     let len: usize = kani::any();
     kani::assume(len <= 5);
     let ro: Option<i32> = kani::any();
@@ -352,7 +352,7 @@ fn c10_o1e_error_round_trip() {
     let ro: bool = kani::any();
     let code: i32 = kani::any();
     let has_ip: bool = kani::any();
-    let ipb: [u8; 4] = kani::any();
+    let ipb: [u8; 4] = kani::env();
     let port: u16 = kani::any();
     let ip = if has_ip { Some(SocketAddrV4::new(ipb.into(), port)) } else { None };
     let m = Message {
@@ -529,7 +529,7 @@ fn convert_probe(msg: internal::DHTMessage) -> Result<Message, DecodeMessageErro
 #[kani::stub(Message::from_serde_message, convert_probe)]
 #[kani::unwind(8)]
 fn c10_o3_from_bytes_gate() {
-    let buf: [u8; 64] = kani::any();
+    let buf: [u8; 64] = kani::env();
     let len: usize = kani::any();
     kani::assume(len <= 64);
     let ok: bool = kani::any();
